@@ -620,43 +620,50 @@ Definition step_follower (r : raftst) (m : msg) : res (bool * raftst) :=
   else Ok (false, r).
 
 (* ---------- Step ---------- *)
+(* the term prelude of Step: (continue?, state) *)
+Definition step_term (r : raftst) (m : msg) : res (bool * raftst) :=
+  let ty := m_type m in
+  if m_term m =? 0 then Ok (true, r)
+  else if r_term r <? m_term m then
+    let in_lease := r_cq r && negb (r_lead r =? none_id) && (r_elapsed r <? r_eltimeout r) in
+    if ((ty =? msg_vote) || (ty =? msg_pre_vote)) && negb (m_ctx m =? 1) && in_lease
+    then do lt <- last_term r; Ok (false, snd lt)   (* the log line reads lastTerm / lastIndex *)
+    else if ty =? msg_pre_vote then Ok (true, r)
+    else if (ty =? msg_pre_vote_resp) && negb (m_reject m) then Ok (true, r)
+    else if (ty =? msg_app) || (ty =? msg_heartbeat) || (ty =? msg_snap)
+         then do r <- become_follower r (m_term m) (m_from m); Ok (true, r)
+         else do r <- become_follower r (m_term m) none_id; Ok (true, r)
+  else if m_term m <? r_term r then
+    if (r_cq r || r_pv r) && ((ty =? msg_heartbeat) || (ty =? msg_app)) then
+      do r <- send r (reply msg_app_resp (m_from m)); Ok (false, r)
+    else if ty =? msg_pre_vote then
+      do lt <- last_term r;     (* evaluated for the log line *)
+      do r <- send (snd lt) (m_with_reject (m_with_term (reply msg_pre_vote_resp (m_from m)) (r_term r)) true 0); Ok (false, r)
+    else Ok (false, r)
+  else Ok (true, r).
+
+(* the MsgVote / MsgPreVote case of Step *)
+Definition step_vote (r : raftst) (m : msg) : res raftst :=
+  let ty := m_type m in
+  if r_islearner r then Ok r
+  else
+    let can_v := can_vote (r_vote r) (r_lead r) (m_from m) (ty =? msg_pre_vote) (m_term m) (r_term r) in
+    do ur <- (if can_v then with_log r (l_is_up_to_date (r_log r) (m_index m) (m_logterm m)) else Ok (false, r));
+    let '(utd, r) := ur in
+    do lt <- last_term r;        (* the log lines read lastTerm / lastIndex *)
+    let r := snd lt in
+    if can_v && utd then
+      do r <- send r (m_with_term (reply (vote_resp_type ty) (m_from m)) (m_term m));
+      if ty =? msg_vote then Ok (upd_tv (upd_elapsed r 0 (r_hbelapsed r)) (r_term r) (m_from m)) else Ok r
+    else send r (m_with_reject (m_with_term (reply (vote_resp_type ty) (m_from m)) (r_term r)) true 0).
+
 Definition step (r : raftst) (m : msg) : res raftst :=
   let ty := m_type m in
-  (* term handling *)
-  do pre <-
-    (if m_term m =? 0 then Ok (true, r)
-     else if r_term r <? m_term m then
-       let in_lease := r_cq r && negb (r_lead r =? none_id) && (r_elapsed r <? r_eltimeout r) in
-       if ((ty =? msg_vote) || (ty =? msg_pre_vote)) && negb (m_ctx m =? 1) && in_lease
-       then do lt <- last_term r; Ok (false, snd lt)   (* the log line reads lastTerm / lastIndex *)
-       else if ty =? msg_pre_vote then Ok (true, r)
-       else if (ty =? msg_pre_vote_resp) && negb (m_reject m) then Ok (true, r)
-       else if (ty =? msg_app) || (ty =? msg_heartbeat) || (ty =? msg_snap)
-            then do r <- become_follower r (m_term m) (m_from m); Ok (true, r)
-            else do r <- become_follower r (m_term m) none_id; Ok (true, r)
-     else if m_term m <? r_term r then
-       if (r_cq r || r_pv r) && ((ty =? msg_heartbeat) || (ty =? msg_app)) then
-         do r <- send r (reply msg_app_resp (m_from m)); Ok (false, r)
-       else if ty =? msg_pre_vote then
-         do lt <- last_term r;     (* evaluated for the log line *)
-         do r <- send (snd lt) (m_with_reject (m_with_term (reply msg_pre_vote_resp (m_from m)) (r_term r)) true 0); Ok (false, r)
-       else Ok (false, r)
-     else Ok (true, r));
+  do pre <- step_term r m;
   let '(go_on, r) := pre in
   if negb go_on then Ok r
   else if ty =? msg_hup then hup r (if r_pv r then CampPre else CampElection)
-  else if (ty =? msg_vote) || (ty =? msg_pre_vote) then
-    if r_islearner r then Ok r
-    else
-      let can_v := can_vote (r_vote r) (r_lead r) (m_from m) (ty =? msg_pre_vote) (m_term m) (r_term r) in
-      do ur <- (if can_v then with_log r (l_is_up_to_date (r_log r) (m_index m) (m_logterm m)) else Ok (false, r));
-      let '(utd, r) := ur in
-      do lt <- last_term r;        (* the log lines read lastTerm / lastIndex *)
-      let r := snd lt in
-      if can_v && utd then
-        do r <- send r (m_with_term (reply (vote_resp_type ty) (m_from m)) (m_term m));
-        if ty =? msg_vote then Ok (upd_tv (upd_elapsed r 0 (r_hbelapsed r)) (r_term r) (m_from m)) else Ok r
-      else send r (m_with_reject (m_with_term (reply (vote_resp_type ty) (m_from m)) (r_term r)) true 0)
+  else if (ty =? msg_vote) || (ty =? msg_pre_vote) then step_vote r m
   else
     do sr <- (if r_state r =? st_leader then step_leader r m
               else if r_state r =? st_follower then step_follower r m
